@@ -1634,10 +1634,7 @@ func c13RunTFCase(c c13TFCase) (res c13TFRes) {
 		waiting[i] = true
 		mu.Unlock()
 		c13Signal(wake)
-		<-stepCh[i]
-		mu.Lock()
-		waiting[i] = false
-		mu.Unlock()
+		<-stepCh[i] // the releasing side clears waiting[i] before it sends
 	}
 	set := func(i, st int) {
 		mu.Lock()
@@ -1784,6 +1781,9 @@ func c13RunTFCase(c c13TFCase) (res c13TFRes) {
 		if i >= 0 && i < n {
 			mu.Lock()
 			w := waiting[i]
+			if w {
+				waiting[i] = false // from now on the thread counts as running until it parks again, blocks or exits
+			}
 			mu.Unlock()
 			if w {
 				stepCh[i] <- struct{}{}
@@ -2036,5 +2036,111 @@ func TestVerifC13Ingress(t *testing.T) {
 			return map[string]string{"panic": "bad case: " + err.Error()}
 		}
 		return map[string]any{"steps": c13RunICase(c)}
+	})
+}
+
+// ---------------------------------------------------------------------------------------------
+// part 7: generations (controlPlaneCore) sharing the per-BPF conn-state tracker across a reload hand-over:
+// newControlPlaneCore on a shared *bpfObjects, core.Close (forced retirement), Retain / Release / Transfer
+// through the real core entry points, by open and by closed cores.
+// ---------------------------------------------------------------------------------------------
+
+type c13GOp struct {
+	Kind string `json:"kind"` // new close retain release transfer
+	B    int    `json:"b"`
+	C    int    `json:"c"`
+	C2   int    `json:"c2"` // transfer: from
+	K    int    `json:"k"`
+}
+
+type c13GCase struct {
+	Bpfs int      `json:"bpfs"`
+	Keys int      `json:"keys"`
+	Ops  []c13GOp `json:"ops"`
+}
+
+type c13GStep struct {
+	Reg     [][]int `json:"reg"`     // per BPF object set: registry references (-1: no entry)
+	Entries [][]int `json:"entries"` // (bpf, tuple, refs, deleting) of the shared trackers, sorted
+}
+
+func c13RunGCase(c c13GCase) (res []c13GStep) {
+	logger := logrus.New()
+	logger.SetOutput(io.Discard)
+	bpfs := make([]*bpfObjects, c.Bpfs)
+	for i := range bpfs {
+		bpfs[i] = &bpfObjects{}
+	}
+	var cores []*controlPlaneCore
+	defer func() {
+		for _, cr := range cores {
+			_ = cr.Close()
+		}
+		// closed cores that re-acquired the shared tracker pin the registry entry: drop the entries of this case
+		sharedUdpConnStateTrackerRegistry.mu.Lock()
+		for _, b := range bpfs {
+			delete(sharedUdpConnStateTrackerRegistry.entries, b)
+		}
+		sharedUdpConnStateTrackerRegistry.mu.Unlock()
+	}()
+	for _, op := range c.Ops {
+		switch op.Kind {
+		case "new":
+			if op.B < len(bpfs) {
+				cr := newControlPlaneCore(logger, bpfs[op.B], nil, nil, false)
+				cr.EjectBpf() // hand-over: the BPF objects outlive the generation
+				cores = append(cores, cr)
+			}
+		case "close":
+			if op.C < len(cores) {
+				_ = cores[op.C].Close()
+			}
+		case "retain":
+			if op.C < len(cores) {
+				cores[op.C].RetainUdpConnStateTuples([]bpfTuplesKey{c13TupleKey(op.K)})
+			}
+		case "release":
+			if op.C < len(cores) {
+				_ = cores[op.C].ReleaseUdpConnStateTuples([]bpfTuplesKey{c13TupleKey(op.K)})
+			}
+		case "transfer":
+			if op.C < len(cores) && op.C2 < len(cores) {
+				cores[op.C].TransferRetainedUdpConnStateTuplesFrom(cores[op.C2], []bpfTuplesKey{c13TupleKey(op.K)})
+			}
+		}
+		st := c13GStep{Reg: [][]int{}, Entries: [][]int{}}
+		sharedUdpConnStateTrackerRegistry.mu.Lock()
+		for b, obj := range bpfs {
+			e := sharedUdpConnStateTrackerRegistry.entries[obj]
+			if e == nil {
+				st.Reg = append(st.Reg, []int{-1})
+				continue
+			}
+			st.Reg = append(st.Reg, []int{e.refs})
+			e.tracker.mu.Lock()
+			for k := 0; k < c.Keys; k++ {
+				if te, ok := e.tracker.entries[c13TupleKey(k)]; ok {
+					d := 0
+					if te.deleting {
+						d = 1
+					}
+					st.Entries = append(st.Entries, []int{b, k, te.refs, d})
+				}
+			}
+			e.tracker.mu.Unlock()
+		}
+		sharedUdpConnStateTrackerRegistry.mu.Unlock()
+		res = append(res, st)
+	}
+	return res
+}
+
+func TestVerifC13TrackerGen(t *testing.T) {
+	verifEachLine(t, func(line []byte) any {
+		var c c13GCase
+		if err := json.Unmarshal(line, &c); err != nil {
+			return map[string]string{"panic": "bad case: " + err.Error()}
+		}
+		return map[string]any{"steps": c13RunGCase(c)}
 	})
 }
